@@ -8,7 +8,8 @@ pub struct RingBuffer {
 
 impl RingBuffer {
     pub fn new(size: usize) -> Self {
-        let buffer = vec![0; size];
+        // One slot is always kept free, an empty buffer would underflow the size computations
+        let buffer = vec![0; size.max(1)];
         Self {
             buffer,
             producer: 0,
